@@ -578,7 +578,7 @@ def install():
             r = R["glob"](pathname, *a, **kw)
         if len(r) > 1 and all(c.mine(x) for x in r):
             r = _permute(c, r)
-            c.before("glob", os.fspath(pathname), len(r))
+            c.before("glob", os.fspath(pathname), list(r))
             c.after("glob", os.fspath(pathname))
         return r
 
